@@ -13,7 +13,7 @@ from .facts import FactBase
 
 VERIF = os.path.dirname(os.path.dirname(os.path.abspath(__file__)))
 CACHE = os.path.join(VERIF, '.cache')
-REPO = os.environ.get('PVX_REPO', '/repo')
+REPO = os.environ.get('PVX_REPO', '/repo')   # self-tests point this at a scratch copy; registered checks always use /repo
 
 SRC_ROOTS = ['compiler', 'runtime', 'rustdoc', 'px_workspace_hack']
 SRC_EXT = ('.rs', '.toml', '.lock', '.sql', '.json')
@@ -72,8 +72,11 @@ def ensure_facts(repo=None, verbose=True):
             base = os.path.join(CACHE, 'facts')
             if os.path.isdir(base):
                 olds = sorted((os.path.join(base, d) for d in os.listdir(base)), key=os.path.getmtime)
+                main_tag = hashlib.sha256(os.path.abspath('/repo').encode()).hexdigest()[:6]
+                keep_main = [d for d in olds if os.path.basename(d).startswith(main_tag)][-3:]   # never evict /repo's latest sets
                 for d in olds[:-8]:
-                    shutil.rmtree(d, ignore_errors=True)
+                    if d not in keep_main:
+                        shutil.rmtree(d, ignore_errors=True)
             os.makedirs(fdir, exist_ok=True)
             tgt = os.environ.get('PVX_TARGET', os.path.join(CACHE, 'target'))
             r = subprocess.run([os.path.join(VERIF, 'bin', 'extract.sh'), repo, fdir, tgt],
@@ -157,7 +160,7 @@ def run_check(prop, tier='quick', replay=None):
     t0 = time.time()
     seed = int(os.environ.get('VERIF_SEED', '0') or 0)
     mod = importlib.import_module('pvx.rules.' + prop.lower())
-    ev_path = os.path.join(VERIF, 'evidence', prop + '.json')
+    ev_path = os.path.join(os.environ.get('PVX_EVIDENCE_DIR', os.path.join(VERIF, 'evidence')), prop + '.json')
     os.makedirs(os.path.dirname(ev_path), exist_ok=True)
     try:
         fdir, info = ensure_facts()
